@@ -228,6 +228,23 @@ def gen_ops(cfg, amap, rng, word_bytes):
             else:
                 for k in range(nops):
                     ops.append(Op(0, adv_we, addr_of(1 + (k + p) % max(1, nb - 2), rng.randrange(nrows), rng.randrange(ncolw))))
+        elif cls in ("holes-w-vs-reader", "holes-r-vs-writer"):
+            # direction adversary with a regular duty cycle: a row-hit stream with single idle cycles (one after every
+            # `hole_period` commands, never two in a row), a second adversary with a rare row miss on another bank; the
+            # victim (port 0) does the other direction on its own bank
+            adv_we = cls.startswith("holes-w")
+            nb = nbanks_total
+            per = wl.get("hole_period", 1)
+            if p == 0:
+                for k in range(wl.get("victim_ops", 30)):
+                    ops.append(Op(rng.randint(0, 6), not adv_we, addr_of(nb - 1, hot_rows[0], rng.randrange(ncolw))))
+            elif p == 1:
+                for k in range(nops):
+                    ops.append(Op(1 if k % per == 0 else 0, adv_we, addr_of(0, hot_rows[0], rng.randrange(ncolw))))
+            else:
+                for k in range(nops):
+                    ops.append(Op(wl.get("rowmiss_gap", 250), adv_we, addr_of(1 % nb, hot_rows[k % len(hot_rows)] if k % 2 else rng.randrange(nrows),
+                                                                             rng.randrange(ncolw))))
         elif cls in ("hammer-same-row", "hammer-alt-rows", "many-ports-one-bank", "yielding", "round-robin-banks",
                      "writes-vs-reader", "reads-vs-writer"):
             victim = (p == 0)
@@ -338,6 +355,9 @@ def run_case(cfg, want_fsm=False):
         if mode == "rand":
             mode = rng.choice(["fifo", "strict"])
         masters.append(NativeMaster(dut.ports[p], all_ops[p], p, oracle, mode, violations))
+        if rng.random() < 0.5:
+            # payload signals are don't-care while valid is low: half of the masters drive garbage on them
+            masters[-1].scramble_rng = random.Random("%s/scramble/%d" % (cfg["seed"], p))
 
     nbanks_total = phy.nranks << geom.bankbits
     D = drain_bound(phy, timing, cs, nbanks_total, nports)
